@@ -4,16 +4,24 @@ import scen, stack as S, vts, peer as P, refpeer as R
 from scen import payload
 
 STACK_ADDR, PEER_ADDR = 0x20, 0x30
+FD_LAST = [29, 45, 4, 5, 8, 9, 12, 13, 16, 17, 20, 21, 28, 44, 1, 59, 60]
 
 
 def gen(rng, k, dll=None, big=False):
+    forced = dll is not None
     dll = dll or rng.choice(['j1939-21', 'j1939-22'])
+    if not forced and k % 4 == 0:
+        dll = 'j1939-22'              # every fourth scenario is FD with a last segment at a CAN-FD length step (below)
     fd = dll != 'j1939-21'
     role = rng.choice(['stack-originator', 'stack-responder'])
     bam = rng.random() < 0.3
     unit = 60 if fd else 7
     if fd:
         size = rng.choice([61, 119, 120, 121, 180, 181, rng.randint(61, 900)]) if not big else rng.randint(900, 20000)
+        if not big and k % 4 == 0:
+            # payload of the last segment on both sides of every CAN-FD length step (frame = 4 header bytes + payload:
+            # 8|9, 12|13, 16|17, 20|21, 24|25, 32|33, 48|49, 64) and the extremes
+            size = 60 * rng.randint(1, 4) + FD_LAST[(k // 4) % len(FD_LAST)]
     else:
         size = rng.choice([9, 13, 14, 15, 21, 22, rng.randint(9, 250)]) if not big else rng.choice([1784, 1785, rng.randint(250, 1785)])
     n = (size + unit - 1) // unit
@@ -34,6 +42,9 @@ def gen(rng, k, dll=None, big=False):
         plan['dt_gap'] = rng.choice([50000, 100000, 190000]) if not fd else rng.choice([10000, 50000, 190000])
     sc = dict(kind='tpconf', dll=dll, role=role, bam=bam, size=size, seed=rng.getrandbits(30), max_cmdt=max_cmdt, cmdt_iv=cmdt_iv, bam_iv=bam_iv,
               dp=dp, pf=pf, ps=ps, prio=rng.randint(0, 7), plan=plan, lat=[rng.choice([1, 500, 5000])], jit=[rng.choice([1, 1000])])
+    if rng.random() < 0.3:
+        # cyclic application timers on the same ECU (periods above and below the 200 ms a broadcast may pause)
+        sc['app_timers'] = [rng.choice([120000, 230000, 500000, 1000000]) for _ in range(rng.choice([1, 1, 2]))]
     biv = bam_iv if bam_iv is not None else (0.05 if not fd else 0.01)
     wmin = max(1, min(min(windows), max_cmdt or 255, plan['limit']))     # the RTS limit (either side's) clips every window
     nwin = (n + wmin - 1) // wmin
@@ -53,6 +64,8 @@ def runner(sc):
         st = S.Stack(sim, sc['dll'], sc['max_cmdt'], sc['cmdt_iv'], sc['bam_iv'])
         cb = st.cb(1, 'sub')
         st.subscribe(cb, STACK_ADDR)
+        for i, per in enumerate(sc.get('app_timers', [])):
+            st.add_timer(per / 1e6, st.cb(700 + i, 'timer', ret=True), None)
         data = scen.lcg_bytes(sc['seed'], sc['size'])
         pgn_sent = (sc['dp'] << 16) | (sc['pf'] << 8) | (sc['ps'] if sc['pf'] >= 240 else 0)
         plan = dict(sc['plan'])
